@@ -123,7 +123,7 @@ mod verif_dynde {
         total(&O::F64, inp);
     }
     #[kani::proof]
-    #[kani::unwind(12)]
+    #[kani::unwind(6)]
     fn total_char() {
         let b: [u8; 3] = kani::any();
         let l: usize = kani::any();
@@ -131,7 +131,7 @@ mod verif_dynde {
         total(&O::Char, &b[..l]);
     }
     #[kani::proof]
-    #[kani::unwind(12)]
+    #[kani::unwind(6)]
     fn total_schema() {
         let b: [u8; 3] = kani::any();
         let l: usize = kani::any();
